@@ -995,3 +995,30 @@ Proof.
   intros H1 H2 H3. unfold dispatched. induction ds as [|d ds IH]; [reflexivity|].
   cbn [filter]. destruct d; cbn [visible]; rewrite ?H1, ?H2, ?H3; now f_equal.
 Qed.
+
+(* a receive error (Close frame, reset, read error) ends the client in the very iteration that sees it: the messages
+   received before it are dispatched in order, then exactly one Disconnect, the stream leaves the table, nothing is
+   written to it - whatever the heartbeat settings and the clock *)
+Fixpoint msgs_before_err (rs : list rres) : option (list msg) :=
+  match rs with
+  | RMsg m :: rs' => option_map (cons m) (msgs_before_err rs')
+  | RErr _ :: _ => Some []
+  | _ => None
+  end.
+
+Lemma drain_error a rs ms :
+  msgs_before_err rs = Some ms -> drain a rs = (map (Message a) ms ++ [Disconnect a], SErr).
+Proof.
+  revert ms. induction rs as [|r rs IH]; intros ms H; [discriminate|].
+  destruct r; cbn [msgs_before_err] in H; try discriminate.
+  - destruct (msgs_before_err rs) as [ms'|]; [|discriminate]. injection H as <-.
+    cbn [drain]. rewrite (IH ms' eq_refl). reflexivity.
+  - injection H as <-. reflexivity.
+Qed.
+
+Theorem receive_error_visit (cfg : config) (wp : bool) (per : list (addr * per_addr)) (m : smap) (a : addr) (lp : N) ms :
+  lookup a m = Some lp -> msgs_before_err (pa_recv (per_of per a)) = Some ms ->
+  visit cfg wp per m a = VGo (remove a m) (map (Message a) ms ++ [Disconnect a]) [].
+Proof.
+  intros Hl Hm. unfold visit. rewrite Hl, (drain_error a _ ms Hm). reflexivity.
+Qed.
